@@ -344,7 +344,7 @@ fn flip_lags(kind: usize, len: usize, n: u64, seed: u64, rep: &mut Report) {
 }
 
 fn bitstring_config(which: usize, p: f64, len: usize, n: u64, seed: u64, rep: &mut Report) {
-    let names = ["Bitstring::random", "Bitstring::random_with_probability", "BoolGenerator collection"];
+    let names = ["Bitstring::random", "Bitstring::random_with_probability", "BoolGenerator collection", "BoolGenerator reconfigured through its public field, sampled directly", "BoolGenerator reconfigured through its public field, then collection"];
     let cfg = format!("{} p={p} len={len}", names[which]);
     let mut rng = TraceRng::derive(seed, "C12-bits", fnv_str(&cfg));
     let mut ones = vec![0u64; len];
@@ -354,8 +354,22 @@ fn bitstring_config(which: usize, p: f64, len: usize, n: u64, seed: u64, rep: &m
         let bits: Vec<bool> = match which {
             0 => Bitstring::random(len, &mut rng).bits,
             1 => Bitstring::random_with_probability(len, p, &mut rng).bits,
-            _ => {
+            2 => {
                 let b: Bitstring = BoolGenerator::new(p).into_collection_generator(len).sample(&mut rng);
+                b.bits
+            }
+            // the probability is a public field: what counts is its value when a bit is drawn,
+            // not the value the generator was constructed with
+            3 => {
+                let mut g = BoolGenerator::new(1.0 - p);
+                let _ = g.sample(&mut rng);
+                g.true_probability = p;
+                (0..len).map(|_| g.sample(&mut rng)).collect()
+            }
+            _ => {
+                let mut g = BoolGenerator::new((p + 0.37) % 1.0);
+                g.true_probability = p;
+                let b: Bitstring = g.into_collection_generator(len).sample(&mut rng);
                 b.bits
             }
         };
@@ -534,6 +548,8 @@ pub fn run(args: &Args) -> i32 {
         for p in [0.0, 0.05, 0.5, 0.8, 1.0] {
             cfgs.push(Cfg::Bits(1, p, len));
             cfgs.push(Cfg::Bits(2, p, len));
+            cfgs.push(Cfg::Bits(3, p, len));
+            cfgs.push(Cfg::Bits(4, p, len));
         }
     }
     // longer strings: a generator / mutator that works word-wise or block-wise may treat the
